@@ -205,6 +205,15 @@ def family(t, sd):
         b = lits[(i + 3) % len(lits)]
         extra.append('min %s * x + y\ns.t.\n    %s * x + y >= %s\n    x - y <= k\nwhere\n    let k = %s\ndefine\n    x as Real(0, %s)\n    y as NonNegativeReal(0, 50)' % (a, b, a, b, '%s' % (float(a) + 100)))
         extra.append('max x\ns.t.\n    c%d: x / %s <= %s\n    abs{ x - %s } <= min{ %s, 9 }\ndefine\n    x as Real(-%s, 1000000)' % (i, a, b, a, b, b))
+    # the sections around the expressions: where-block values of every literal kind (arrays of one and of mixed element
+    # types, nested arrays, strings, booleans, weighted graphs) and every declaration form (one bound, two bounds,
+    # expression bounds, several names sharing a type, quantified declarations)
+    extra += ['min sum(e in w) { e * x }\ns.t.\n    x >= 1\nwhere\n    let w = [1, 2.5, 3]\ndefine\n    x as Real(2)',
+              'max x + y\ns.t.\n    x + y <= m[1][0] + len(names)\nwhere\n    let m = [[1.5, 2.5], [3.5, 4.5]]\n    let names = ["a", "b c"]\n    let flag = true\ndefine\n    x as NonNegativeReal(1)\n    y as Real(-1, k)\nwhere\n    let k = 2' if False else
+              'max x + y\ns.t.\n    x + y <= m[1][0] + len(names)\nwhere\n    let m = [[1.5, 2.5], [3.5, 4.5]]\n    let names = ["a", "b c"]\n    let flag = true\n    let k = 2\ndefine\n    x as NonNegativeReal(1)\n    y as Real(-1, k)',
+              'min x_0 + x_1 + z\ns.t.\n    x_i >= lo[i] for i in 0..2\n    z >= 0.5\nwhere\n    let lo = [0.5, 1.5]\ndefine\n    x_i as Real(lo[i]) for i in 0..2\n    z as NonNegativeReal(0.25, 10)',
+              'min a + b + c\ns.t.\n    a + b + c >= 3\ndefine\n    a, b as Real(1)\n    c as NonNegativeReal(0.5)',
+              'max a\ns.t.\n    a <= sum((u, v, w) in edges(G)) { w }\nwhere\n    let G = Graph {\n        A -> [B: 2.5, C: 1],\n        B -> [C],\n        C\n    }\ndefine\n    a as IntegerRange(0 - 2, 2 * 5)']
     # strict comparisons, on integer / Boolean operands (lowered one unit further in) and on real ones (kept strict)
     extra += ['min x + y\ns.t.\n    x > -1.5\n    y < 3\n    c: x + y > 0.5\n    p < q\ndefine\n    x as IntegerRange(-4, 4)\n    y as Real(-2, 5)\n    p, q as Boolean',
               'max a - b\ns.t.\n    a - (b - 1) < 2\n    -(a) > -3\n    abs{ a - b } < 2\ndefine\n    a, b as IntegerRange(-3, 3)']
